@@ -266,6 +266,7 @@ impl<'a, 'b> Sem<'a, 'b> {
             "fxs".into(),
             v_fn("fxs", v_arr(vec![v_str("fxs-0"), v_vnode("fxs-1")])),
         ));
+        bound.push(("IonBound".into(), v_comp("IonBound")));
         bound.push(("C1".into(), v_comp("C1")));
         bound.push(("C2".into(), v_comp("C2")));
         bound.push((
@@ -470,7 +471,9 @@ impl<'a, 'b> Sem<'a, 'b> {
             },
             2 => {
                 // a tag the configured patterns match
-                let cands: Vec<&str> = ["i-x", "my-el", "foo-el-bar", "i-y"]
+                // (`IonCard` is unbound, `IonBound` is imported: a pattern-matched tag is the
+                // tag string either way)
+                let cands: Vec<&str> = ["i-x", "my-el", "foo-el-bar", "i-y", "IonCard", "IonBound"]
                     .iter()
                     .copied()
                     .filter(|t| self.opts_match(t))
@@ -503,6 +506,7 @@ impl<'a, 'b> Sem<'a, 'b> {
             "^i-" => tag.starts_with("i-"),
             "^my-" => tag.starts_with("my-"),
             "el" => tag.contains("el"),
+            "^Ion" => tag.starts_with("Ion"),
             _ => false,
         })
     }
@@ -829,7 +833,7 @@ impl<'a, 'b> Sem<'a, 'b> {
             .c
             .choose(&[
                 "v-show", "v-foo", "v-foo-bar", "vFoo", "vFooBar", "v-x", "vX", "vShow", "v-two-words",
-                "vTwoWords", "v-Foo",
+                "vTwoWords", "v-Foo", "v-visible", "vVisible", "v-vv", "v-v-on",
             ])
             .to_string();
         let mut ns_arg = None;
